@@ -97,7 +97,34 @@ func (vc *VC) call(st *State, v *ssa.Call, c *ssa.CallCommon) error {
 			callee = mc.Fn.(*ssa.Function)
 			_ = callee
 		}
+		// a function value held in a parameter or local can carry site assertions: anchor "fn.<name>"
+		fname := ""
+		switch fv := c.Value.(type) {
+		case *ssa.Parameter:
+			fname = fv.Name()
+		case *ssa.FreeVar:
+			fname = fv.Name()
+		case *ssa.UnOp:
+			if a, ok := fv.X.(*ssa.Alloc); ok {
+				fname = a.Comment
+			} else if fvv, ok := fv.X.(*ssa.FreeVar); ok {
+				fname = fvv.Name()
+			}
+		}
+		ordF := 0
+		if fname != "" && vc.inlineDepth == 0 {
+			vc.callOrd["fn."+fname]++
+			ordF = vc.callOrd["fn."+fname]
+			if err := vc.siteAsserts(st, "call", "fn."+fname, ordF, "before", c.Args, nil); err != nil {
+				return err
+			}
+		}
 		vc.unknownCall(st, resV, c, "call of a function value")
+		if fname != "" && vc.inlineDepth == 0 {
+			nc := "N_" + sanitize("fn."+fname)
+			st.heap[nc] = vc.define(nc, "Int", sx("+", vc.heapGet(st, nc, "Int"), "1"))
+			return vc.siteAsserts(st, "call", "fn."+fname, ordF, "after", c.Args, resV)
+		}
 		return nil
 	}
 	key := funcKey(callee)
